@@ -758,6 +758,13 @@ class SymEngine:
                     if plo > 0 and not self.refine_len(t[2][0], plo, INF, facts):
                         return False
                 return True
+        if h == "slice" and t[3] is None and t[2] is not None and not is_c(t[2]):
+            # x[base + k:] is non-empty  <=>  len(x) - base >= k + 1
+            base, k = _lin(t[2])
+            if base is not None:
+                ok = facts.set_off(t[1], base, k + 1, INF) if pol else facts.set_off(t[1], base, -INF, k)
+                if not ok:
+                    return False
         # generic truthiness of a sequence-like value
         if h in ("p", "sub", "slice", "attr", "upd", "iter", "tuple", "list") or (h == "call" and self._seq_like(t)):
             lo, hi = self.len_of(t, facts)
